@@ -73,3 +73,35 @@ package commands
 //@   callback Process=1
 //@   callback Transcode=2
 //@   ensures [C14] [C16] @once: tlen() <= old(tlen()) + 3 && (result == nil ==> tlen() == old(tlen()) + 3 && tres1("FromPath", old(tlen())) == nil && tres("Process", old(tlen()) + 1) == nil)
+//
+// execute (balance): the report pipeline is assembled in the order check -> prices -> valuate ->
+// filter(window) -> close(periods) -> query(report) and handed to Process in exactly that order (the
+// check stage sees the journal as written, before valuation adds its own bookings), and the report that
+// the query stage fills is the one that is rendered - only after the pipeline succeeded.
+//@ func (balanceRunner).execute
+//@   requires cmd != nil && len(args) >= 1
+//@   modifies *
+//@   callback Check=0
+//@   callback ComputePrices=0
+//@   callback Valuate=0
+//@   callback Filter=0
+//@   callback CloseAccounts=0
+//@   callback Into=0
+//@   callback Process=1
+//@   callback Render=2
+//@   ensures [C02] [C01] [C04] @count: result == nil ==> tlen() == old(tlen()) + 8
+//@   ensures [C02] [C01] [C04] @order: result == nil ==> tkind(old(tlen())) == kind("Check") && tkind(old(tlen()) + 1) == kind("ComputePrices") && tkind(old(tlen()) + 2) == kind("Valuate")
+//@        && tkind(old(tlen()) + 3) == kind("Filter") && tkind(old(tlen()) + 4) == kind("CloseAccounts") && tkind(old(tlen()) + 5) == kind("Into")
+//@        && tkind(old(tlen()) + 6) == kind("Process") && tkind(old(tlen()) + 7) == kind("Render")
+//@   ensures [C02] @close: result == nil ==> targ("CloseAccounts", 2, old(tlen()) + 4) == r.close
+//@   ensures [C02] [C01] @six: result == nil ==> len(targ("Process", 0, old(tlen()) + 6)) == 6
+//@   ensures [C02] [C01] @same: result == nil ==> targ("Render", 0, old(tlen()) + 7) == dyn(targ("Into", 0, old(tlen()) + 5), "*balance.Report")
+//
+// execute (check): the verdict of the checker is the verdict of the command - also with --write: the
+// assertions are only written after the journal passed.
+//@ func (*checkRunner).execute
+//@   requires r != nil && cmd != nil && len(args) >= 1
+//@   modifies *
+//@   callback Process=0
+//@   callback writeFile=1
+//@   ensures [C04] @verdict: (tlen() >= old(tlen()) + 1 && tres("Process", old(tlen())) != nil) ==> result != nil && tlen() == old(tlen()) + 1
